@@ -123,7 +123,7 @@ func c03Capacity(name string, leafSize uint64) (uint64, bool) {
 		return 0, true
 	case "lrutight":
 		// holds a leaf bitmap and nothing bigger: results of different sizes are "too big for the whole cache" or not
-		return leafSize + c03Overhead() + 4, true
+		return leafSize + c03Overhead(), true
 	case "lru1":
 		return leafSize + 72 + 40, true
 	case "lru3":
